@@ -29,7 +29,7 @@ CHECK = {'rule': '(files) rapid-generated template file sets (helpers, 1-3 layou
                               'layout-overrides-helper',
                               'view-overrides-helper',
                               'same-name-in-two-views',
-                              'nested-dir',
+                              'nested-dir', 'template-file-in-a-dot-directory', 'template-file-larger-than-64KiB',
                               'non-matching-ext',
                               'colon-key-pair',
                               'layout-request',
